@@ -38,11 +38,11 @@ type Client struct {
 }
 
 type Case struct {
-	Proto      string   `json:"proto"` // tcp | udp | tls
-	Procs      int      `json:"gomaxprocs"`
-	Clients    []Client `json:"clients"`
-	StopDuring bool     `json:"stop_during,omitempty"` // Stop while clients are still sending
-	StopAfterUs int     `json:"stop_after_us,omitempty"`
+	Proto       string   `json:"proto"` // tcp | udp | tls
+	Procs       int      `json:"gomaxprocs"`
+	Clients     []Client `json:"clients"`
+	StopDuring  bool     `json:"stop_during,omitempty"` // Stop while clients are still sending
+	StopAfterUs int      `json:"stop_after_us,omitempty"`
 }
 
 var (
@@ -69,6 +69,12 @@ func TestMain(m *testing.M) {
 			}) *ev.Failure {
 				return runQuiet(q.Proto, time.Duration(q.QuietS*float64(time.Second)))
 			})
+		}
+		if rp.Phase == "stop_after_failed_start" {
+			ev.RunReplay(rp, runFailStart)
+		}
+		if rp.Phase == "many_clients" {
+			ev.RunReplay(rp, runMany)
 		}
 		ev.RunReplay(rp, func(c Case) *ev.Failure { f, _ := runCase(c); return f })
 	}
@@ -171,7 +177,7 @@ func runCase(c Case) (*ev.Failure, bool) {
 	sent := make([]atomic.Int32, len(c.Clients)) // complete messages written by each client
 	var active atomic.Int32
 	var peak atomic.Int32
-		var cw, writers sync.WaitGroup
+	var cw, writers sync.WaitGroup
 	release := make(chan struct{})   // idle clients close when released
 	afterStop := make(chan struct{}) // silent clients stay connected until Stop has returned
 	var silentUp atomic.Int32
@@ -498,6 +504,13 @@ func runQuiet(proto string, quiet time.Duration) *ev.Failure {
 	a.Write(message(0, 0))
 	a.Write(message(0, 1))
 	b.Write(message(1, 0))
+	// both connections must first be accepted and counted (on a loaded machine that can take a
+	// moment); from then on the count must not drop
+	for end := time.Now().Add(30 * time.Second); cp.GetNumConnToCollector() != 2; time.Sleep(time.Millisecond) {
+		if time.Now().After(end) {
+			return ev.Failf("two clients connected and sent messages, after 30 s GetNumConnToCollector() = %d", cp.GetNumConnToCollector())
+		}
+	}
 	for end, k := time.Now().Add(quiet), 1; time.Now().Before(end); k++ {
 		b.Write(message(1, k))
 		time.Sleep(250 * time.Millisecond)
@@ -521,7 +534,244 @@ func runQuiet(proto string, quiet time.Duration) *ev.Failure {
 	}
 }
 
+// FailStart: Start cannot bring the server up (Why: the address is taken, or the TLS certificate
+// does not parse); Stop must still return promptly and leave nothing behind.
+type FailStart struct {
+	Proto string `json:"proto"` // tcp | udp | tls
+	Why   string `json:"why"`   // address_in_use | bad_certificate
+}
+
+func runFailStart(c FailStart) *ev.Failure {
+	in := collector.CollectorInput{Address: "127.0.0.1:0", Protocol: "tcp", MaxBufferSize: 65535}
+	if c.Proto == "udp" {
+		in.Protocol = "udp"
+	}
+	if c.Proto == "tls" {
+		in.IsEncrypted, in.ServerCert, in.ServerKey = true, srvCert.CertPEM, srvCert.KeyPEM
+	}
+	switch c.Why {
+	case "address_in_use":
+		if c.Proto == "udp" {
+			pc, err := net.ListenPacket("udp", "127.0.0.1:0")
+			if err != nil {
+				return nil
+			}
+			defer pc.Close()
+			in.Address = pc.LocalAddr().String()
+		} else {
+			ln, err := net.Listen("tcp", "127.0.0.1:0")
+			if err != nil {
+				return nil
+			}
+			defer ln.Close()
+			in.Address = ln.Addr().String()
+		}
+	case "bad_certificate":
+		in.ServerCert = []byte("-----BEGIN CERTIFICATE-----\nnot a certificate\n-----END CERTIFICATE-----\n")
+	}
+	cp, err := collector.InitCollectingProcess(in)
+	if err != nil {
+		return nil // refused at construction: nothing was started
+	}
+	started := make(chan struct{})
+	go func() { defer close(started); cp.Start() }()
+	select {
+	case <-started: // Start gave up
+	case <-time.After(2 * time.Second):
+		if cp.GetAddress() != nil {
+			return nil // the server came up after all (the address was free again): not this scenario
+		}
+	}
+	stopped := make(chan struct{})
+	go func() { defer close(stopped); cp.Stop() }()
+	select {
+	case <-stopped:
+	case <-time.After(10 * time.Second):
+		return ev.Failf("Stop did not return within 10 s after a Start that could not bring the %s server up (%s)", c.Proto, c.Why)
+	}
+	select {
+	case <-started:
+	case <-time.After(10 * time.Second):
+		return ev.Failf("Start did not return within 10 s of Stop (%s, %s)", c.Proto, c.Why)
+	}
+	return nil
+}
+
+// Many: N clients connected at the same time, each delivering a template and one data message;
+// then all disconnect and Rounds more waves of N short-lived clients follow; then one ordinary
+// client. "Any number of concurrently connected exporters."
+type Many struct {
+	Proto  string `json:"proto"` // tcp | tls
+	N      int    `json:"n"`
+	Rounds int    `json:"rounds"`
+}
+
+func runMany(c Many) *ev.Failure {
+	in := collector.CollectorInput{Address: "127.0.0.1:0", Protocol: "tcp", MaxBufferSize: 65535}
+	if c.Proto == "tls" {
+		in.IsEncrypted, in.ServerCert, in.ServerKey = true, srvCert.CertPEM, srvCert.KeyPEM
+	}
+	cp, err := collector.InitCollectingProcess(in)
+	if err != nil {
+		return ev.Failf("InitCollectingProcess: %v", err)
+	}
+	go cp.Start()
+	for i := 0; i < 3000 && cp.GetAddress() == nil; i++ {
+		time.Sleep(time.Millisecond)
+	}
+	if cp.GetAddress() == nil {
+		return nil
+	}
+	var mu sync.Mutex
+	got := map[uint32]int{}
+	stop, done := make(chan struct{}), make(chan struct{})
+	go func() {
+		defer close(done)
+		for {
+			select {
+			case m := <-cp.GetMsgChan():
+				mu.Lock()
+				got[m.GetObsDomainID()]++
+				mu.Unlock()
+			case <-stop:
+				return
+			}
+		}
+	}()
+	defer func() { cp.Stop(); close(stop); <-done }()
+	dial := func() (net.Conn, error) {
+		if c.Proto == "tls" {
+			roots := x509.NewCertPool()
+			roots.AppendCertsFromPEM(ca.CertPEM)
+			return tls.Dial("tcp", cp.GetAddress().String(), &tls.Config{RootCAs: roots, ServerName: "localhost"})
+		}
+		return net.Dial("tcp", cp.GetAddress().String())
+	}
+	delivered := func(lo, hi, per int, limit time.Duration) int {
+		n := 0
+		for end := time.Now().Add(limit); ; time.Sleep(2 * time.Millisecond) {
+			n = 0
+			mu.Lock()
+			for k := lo; k < hi; k++ {
+				if got[uint32(k+1)] >= per {
+					n++
+				}
+			}
+			mu.Unlock()
+			if n == hi-lo || time.Now().After(end) {
+				return n
+			}
+		}
+	}
+	next := 0
+	wave := func(hold bool) ([]net.Conn, *ev.Failure) {
+		lo := next
+		next += c.N
+		conns := make([]net.Conn, c.N)
+		errs := make([]error, c.N)
+		var wg sync.WaitGroup
+		for k := 0; k < c.N; k++ {
+			wg.Add(1)
+			go func(k int) {
+				defer wg.Done()
+				conn, err := dial()
+				if err != nil {
+					errs[k] = err
+					return
+				}
+				conns[k] = conn
+				if _, err := conn.Write(message(lo+k, 0)); err != nil {
+					errs[k] = err
+					return
+				}
+				_, errs[k] = conn.Write(message(lo+k, 1))
+			}(k)
+		}
+		wg.Wait()
+		nerr := 0
+		var first error
+		for _, e := range errs {
+			if e != nil {
+				nerr++
+				if first == nil {
+					first = e
+				}
+			}
+		}
+		if n := delivered(lo, lo+c.N, 2, 30*time.Second); n != c.N || nerr > 0 {
+			for _, x := range conns {
+				if x != nil {
+					x.Close()
+				}
+			}
+			if nerr > 0 && strings.Contains(first.Error(), "too many open files") {
+				return nil, nil // environment: descriptor limit
+			}
+			return nil, ev.Failf("%d %s clients connected at the same time, each sending a template and one data message: both messages of only %d clients were delivered (%d clients saw an error; first: %v; %d connections counted)", c.N, c.Proto, n, nerr, first, cp.GetNumConnToCollector())
+		}
+		if hold {
+			if n := int(cp.GetNumConnToCollector()); n != c.N {
+				for _, x := range conns {
+					x.Close()
+				}
+				return nil, ev.Failf("%d clients are connected and served, GetNumConnToCollector() = %d", c.N, n)
+			}
+		}
+		for _, x := range conns {
+			x.Close()
+		}
+		for end := time.Now().Add(30 * time.Second); cp.GetNumConnToCollector() != 0; time.Sleep(2 * time.Millisecond) {
+			if time.Now().After(end) {
+				return nil, ev.Failf("all %d clients disconnected, GetNumConnToCollector() stays at %d", c.N, cp.GetNumConnToCollector())
+			}
+		}
+		return conns, nil
+	}
+	for r := 0; r <= c.Rounds; r++ {
+		if _, f := wave(r == 0); f != nil {
+			return f
+		}
+	}
+	// one ordinary exporter afterwards
+	c.N = 1
+	if _, f := wave(true); f != nil {
+		return ev.Failf("after %d waves of clients had come and gone: %s", c.Rounds+1, f.Msg)
+	}
+	return nil
+}
+
 func TestC12(t *testing.T) {
+	// every run: Stop after a Start that failed; many clients at once, in waves
+	if ev.Shard() <= 1 {
+		for _, c := range []FailStart{{"tcp", "address_in_use"}, {"udp", "address_in_use"}, {"tls", "address_in_use"}, {"tls", "bad_certificate"}} {
+			c := c
+			t.Run("failstart_"+c.Proto+"_"+c.Why, func(t *testing.T) {
+				t.Parallel()
+				f := runFailStart(c)
+				rec.Case(ev.Hash(c), true, "stop_after_failed_start")
+				if f != nil {
+					rec.Violation("stop_after_failed_start", c, f.Msg)
+					t.Errorf("%s", f.Msg)
+				}
+			})
+		}
+		many := []Many{{"tcp", 300, 2}, {"tls", 120, 1}}
+		if rec.Thorough() {
+			many = []Many{{"tcp", 700, 3}, {"tls", 300, 2}}
+		}
+		for _, c := range many {
+			c := c
+			t.Run(fmt.Sprintf("many_%s_%d", c.Proto, c.N), func(t *testing.T) {
+				t.Parallel()
+				f := runMany(c)
+				rec.Case(ev.Hash(c), true, "many_clients_in_waves")
+				if f != nil {
+					rec.Violation("many_clients", c, f.Msg)
+					t.Errorf("%s", f.Msg)
+				}
+			})
+		}
+	}
 	// once per run: a connection that stays quiet for a while (6 s; 20 s in the thorough tier)
 	if ev.Shard() <= 1 {
 		quiet := 6 * time.Second
